@@ -251,3 +251,7 @@ Qed.
 
 Lemma potential_factories_count : List.length (List.filter potential_like factories) = 8%nat.
 Proof. reflexivity. Qed.
+
+(* no factory of the table rewrites its evaluation points / directions before handing them to the assembler *)
+Lemma factories_pass_points_through : List.Forall (fun f => f_alters_points f = false) factories.
+Proof. unfold factories. repeat (apply List.Forall_cons; [reflexivity|]). apply List.Forall_nil. Qed.
